@@ -85,6 +85,16 @@ func (fr *FnRun) resolveMods() []modLoc {
 				return
 			case "sel":
 				base := ex.force(entry, fr.eval(m.X, env))
+				// a captured variable holding a pointer: the location is in the pointed-to struct
+				for i := 0; i < 2; i++ {
+					if bp, ok := base.(*PtrV); ok && bp.Obj != nil {
+						if inner, ok2 := ex.force(entry, ex.load(entry, bp)).(*PtrV); ok2 && inner.Obj != nil {
+							base = inner
+							continue
+						}
+					}
+					break
+				}
 				hp, ho := fr.ghostHolder(entry, base, m.Name)
 				if ho != nil {
 					out = append(out, modLoc{obj: ho, ghost: m.Name, src: m.String()})
